@@ -7,6 +7,7 @@ package schedule
 
 import (
 	"bufio"
+	"crypto/ecdsa"
 	"encoding/json"
 	"flag"
 	"fmt"
@@ -22,6 +23,7 @@ import (
 	"github.com/LemoFoundationLtd/lemochain-core/chain/params"
 	"github.com/LemoFoundationLtd/lemochain-core/chain/types"
 	"github.com/LemoFoundationLtd/lemochain-core/common"
+	"github.com/LemoFoundationLtd/lemochain-core/common/crypto"
 	"github.com/LemoFoundationLtd/lemochain-core/store"
 
 	"verifharness/engine"
@@ -51,55 +53,84 @@ func addr(tag byte, i int) common.Address {
 	return a
 }
 
-func nodes(as []common.Address) types.DeputyNodes {
+// nodeKey is the deterministic node key of node i (its NodeID is what a term's deputy list names).
+var nodeKeys = map[int]*ecdsa.PrivateKey{}
+
+func nodeKey(i int) *ecdsa.PrivateKey {
+	if k, ok := nodeKeys[i]; ok {
+		return k
+	}
+	b := make([]byte, 32)
+	b[0], b[1], b[30], b[31] = 0x13, 0x37, byte(i>>8), byte(i)
+	b[5] = 1
+	k, err := crypto.ToECDSA(b)
+	if err != nil {
+		panic(err)
+	}
+	nodeKeys[i] = k
+	return k
+}
+
+func nodes(as []common.Address, ids []int) types.DeputyNodes {
 	var out types.DeputyNodes
 	for i, a := range as {
-		id := make([]byte, 64)
-		copy(id, a[:])
-		out = append(out, &types.DeputyNode{MinerAddress: a, NodeID: id, Rank: uint32(i), Votes: big.NewInt(int64(100000 - i))})
+		out = append(out, &types.DeputyNode{MinerAddress: a, NodeID: crypto.PrivateKeyToNodeID(nodeKey(ids[i])), Rank: uint32(i), Votes: big.NewInt(int64(100000 - i))})
 	}
 	return out
 }
 
-// world is a real deputy manager with two terms: term 0 = n deputies D0..D(n-1) plus an
-// outsider X ranked last (so it is a deputy of term 0 only when deputyCount allows); term 1 = D0..D(n-1).
+// world is a real deputy manager with two terms.  Term 1 (elected by the snapshot block at height termDuration, in charge
+// from termDuration+interimDuration+1) has the n deputies node 0..n-1; term 0 (genesis) has n0 deputies: node 0.. and,
+// when n0 > n, extra nodes that are deputies of term 0 only - so the deputy COUNT changes at the term switch.  With alt,
+// the nodes that serve in both terms mine for ANOTHER account in term 0 than in term 1 (re-registered in between).
 type world struct {
-	n        int
+	n, n0    int
 	dm       *deputynode.Manager
-	deps     []common.Address
+	t0, t1   []common.Address // miner accounts by rank
+	id0, id1 []int            // node index by rank
 	outsider common.Address
 }
 
-var worlds = map[[2]int]*world{}
+type wkey struct {
+	n, n0 int
+	alt   bool
+}
 
-// getWorld: term 1 has the n deputies D0..D(n-1); term 0 has n0 deputies: D0.. and, when n0 > n, extra nodes that are
-// deputies of term 0 only (so the deputy COUNT changes at the term switch, and the parent's miner may be one of them).
-func getWorld(n, n0 int) *world {
-	if w, ok := worlds[[2]int{n, n0}]; ok {
+var worlds = map[wkey]*world{}
+
+func getWorld(n, n0 int, alt bool) *world {
+	if w, ok := worlds[wkey{n, n0, alt}]; ok {
 		return w
 	}
 	params.TermDuration = termDuration
 	params.InterimDuration = interimDuration
-	w := &world{n: n, outsider: addr(0xee, 0)}
+	w := &world{n: n, n0: n0, outsider: addr(0xee, 0)}
 	for i := 0; i < n; i++ {
-		w.deps = append(w.deps, addr(0xd0, i))
+		w.t1 = append(w.t1, addr(0xd0, i))
+		w.id1 = append(w.id1, i)
 	}
-	term0 := append([]common.Address(nil), w.deps...)
-	if n0 < n {
-		term0 = term0[:n0]
-	}
-	for i := n; i < n0; i++ {
-		term0 = append(term0, addr(0xee, i-n)) // the first extra node is w.outsider
+	for i := 0; i < n0; i++ {
+		switch {
+		case i >= n: // the first extra node mines for w.outsider
+			w.t0 = append(w.t0, addr(0xee, i-n))
+			w.id0 = append(w.id0, 1000+i-n)
+		case alt:
+			w.t0 = append(w.t0, addr(0xa0, i))
+			w.id0 = append(w.id0, i)
+		default:
+			w.t0 = append(w.t0, addr(0xd0, i))
+			w.id0 = append(w.id0, i)
+		}
 	}
 	l := &loader{blocks: map[uint32]*types.Block{}}
-	l.blocks[0] = &types.Block{Header: &types.Header{Height: 0}, DeputyNodes: nodes(term0)}
-	l.blocks[termDuration] = &types.Block{Header: &types.Header{Height: termDuration}, DeputyNodes: nodes(w.deps)}
+	l.blocks[0] = &types.Block{Header: &types.Header{Height: 0}, DeputyNodes: nodes(w.t0, w.id0)}
+	l.blocks[termDuration] = &types.Block{Header: &types.Header{Height: termDuration}, DeputyNodes: nodes(w.t1, w.id1)}
 	max := n
 	if n0 > max {
 		max = n0
 	}
 	w.dm = deputynode.NewManager(max, l)
-	worlds[[2]int{n, n0}] = w
+	worlds[wkey{n, n0, alt}] = w
 	return w
 }
 
@@ -123,25 +154,49 @@ func (t tuple) height() uint32 {
 		return termDuration + interimDuration + 1
 	case "normal0":
 		return 5
+	case "interim": // the next term is elected already, the old one is still in charge
+		return termDuration + 1 + uint32(t.Parent%interimDuration)
 	default: // normal1
 		return termDuration + interimDuration + 5
 	}
 }
 
 func eval(t tuple) map[string]interface{} {
-	n0 := t.N
-	if t.Kind == "reward" {
-		n0 = t.N + 1 + int(t.Parent%2) // the previous term had one or two deputies more
+	// the term in charge at the target height has t.N deputies; the other term has a different number
+	alt := (t.Parent/2)%2 == 1
+	other := t.N + 1 + int(t.Parent%2)
+	if t.N > 1 && (t.Parent/4)%3 == 0 {
+		other = t.N - 1
 	}
-	w := getWorld(t.N, n0)
+	var w *world
+	var deps []common.Address
+	var ids []int
+	switch t.Kind {
+	case "reward":
+		w = getWorld(t.N, other, alt)
+		deps, ids = w.t1, w.id1
+	case "normal1":
+		w = getWorld(t.N, t.N, alt)
+		deps, ids = w.t1, w.id1
+	case "interim":
+		w = getWorld(other, t.N, alt)
+		deps, ids = w.t0, w.id0
+	default: // h1, normal0
+		w = getWorld(t.N, t.N, alt)
+		deps, ids = w.t0, w.id0
+	}
 	h := t.height()
 	parentMiner := w.outsider
 	if t.Pr < t.N {
-		parentMiner = w.deps[t.Pr]
+		parentMiner = deps[t.Pr]
+		if t.Kind == "reward" && t.Pr < len(w.t0) { // the parent of the first block of a term was mined for a term-0 account
+			parentMiner = w.t0[t.Pr]
+		}
 	}
-	target := w.deps[t.Tr]
+	target := deps[t.Tr]
 	row := map[string]interface{}{"ev": "row", "n": t.N, "special": t.Special, "pr": t.Pr, "tr": t.Tr,
-		"slot": t.SlotMs, "now": t.NowMs, "bi": t.BiMs, "kind": t.Kind, "parent": strconv.FormatInt(t.Parent, 10)}
+		"slot": t.SlotMs, "now": t.NowMs, "bi": t.BiMs, "kind": t.Kind, "parent": strconv.FormatInt(t.Parent, 10),
+		"h": int(h), "td": termDuration, "id": interimDuration, "c0": len(w.t0), "c1": len(w.t1), "count": w.dm.GetDeputiesCount(h), "hdr": -1}
 	dist, err := w.dm.GetMinerDistance(h, parentMiner, target)
 	if err != nil {
 		row["dist"] = -1
@@ -161,6 +216,18 @@ func eval(t tuple) map[string]interface{} {
 	wait, end := m.VerifGetSleepTime(h, dist, pms, pms+t.NowMs)
 	row["wake"], row["end"] = t.NowMs+wait, end-pms
 	parent := &types.Header{Height: h - 1, Time: uint32(t.Parent), MinerAddress: parentMiner}
+	// the account the REAL assembler stamps into a header mined by the target deputy's node
+	deputynode.SetSelfNodeKey(nodeKey(ids[t.Tr]))
+	stamped := target
+	if hd, err := consensus.NewBlockAssembler(nil, w.dm, nil, nil).PrepareHeader(parent, ""); err == nil {
+		stamped = hd.MinerAddress
+		row["hdr"] = -2
+		for i, d := range deps {
+			if d == stamped {
+				row["hdr"] = i
+			}
+		}
+	}
 	val := consensus.NewValidator(uint64(t.SlotMs), nil, w.dm, nil, nil)
 	// sample instants: the window's edges and middle, the wake-up instant, now, and extras
 	fr, tt := from-pms, to-pms
@@ -176,7 +243,7 @@ func eval(t tuple) map[string]interface{} {
 		a, err := consensus.GetCorrectMiner(parent, pms+s, t.SlotMs, w.dm)
 		rank := -1
 		if err == nil {
-			for i, d := range w.deps {
+			for i, d := range deps {
 				if d == a {
 					rank = i
 				}
@@ -186,8 +253,11 @@ func eval(t tuple) map[string]interface{} {
 		// a header whose time is the whole second of instant s (PrepareHeader), signed by each deputy in turn
 		hdr := &types.Header{Height: h, Time: uint32(t.Parent + s/1000)}
 		okTr, others := false, 0
-		for i, d := range w.deps {
+		for i, d := range deps {
 			hdr.MinerAddress = d
+			if i == t.Tr {
+				hdr.MinerAddress = stamped // what the target's own node writes
+			}
 			if val.VerifyMiner(hdr, parent) == nil {
 				if i == t.Tr {
 					okTr = true
@@ -209,7 +279,7 @@ func kindsFor(special bool, pr, n int) []string {
 		}
 		return []string{"h1", "reward"}
 	}
-	return []string{"normal0", "normal1"}
+	return []string{"normal0", "normal1", "interim"}
 }
 
 func drive(args []string) error {
